@@ -51,7 +51,7 @@ def run(prog, rep):
         'Lock-step equivalence with a reference model is not decided.')
     rep.rule('R1', 'identity guards dominate property writes', floor=8)
     rep.rule('R2', 'insertion guard key is a subset of the lookup key', floor=1)
-    rep.rule('R3', 'override inventory and storage signature agreement', floor=8)
+    rep.rule('R3', 'override inventory; storage and backend signature agreement with the abstract interface', floor=40)
     rep.rule('R4', 'monotone id allocators in both stores', floor=8)
     rep.rule('R5', 'merge policy loop', floor=4)
 
@@ -171,6 +171,32 @@ def run(prog, rep):
         if p1 != p2:
             rep.violation('R3', loc(s2.module, pub2[n]), f'storage.{n}', f'signatures differ: {p1} vs {p2}',
                           'a call valid on one store is a TypeError on the other')
+    # every implementation accepts the calls the abstract interface documents (same parameter names, nothing extra required)
+    abc = prog.cls('fim.graph.abc_property_graph:ABCPropertyGraph')
+
+    def sig(fn):
+        a = fn.args
+        pos = [x.arg for x in a.posonlyargs + a.args if x.arg != 'self']
+        kw = [x.arg for x in a.kwonlyargs]
+        nd = len(a.defaults)
+        posreq = pos[:len(pos) - nd] if nd else pos
+        kwreq = [x.arg for x, d in zip(a.kwonlyargs, a.kw_defaults) if d is None]
+        return pos, kw, set(posreq) | set(kwreq)
+    for impl in (nxpg, prog.cls('fim.graph.neo4j_property_graph:Neo4jPropertyGraph')):
+        for name, fn in abc.methods.items():
+            if name == '__init__' or not any(ast.unparse(d) == 'abstractmethod' for d in fn.decorator_list):
+                continue
+            _, ifn = impl.find_method(name)
+            rep.instance('R3', f'{impl.name}.{name} vs abstract signature')
+            if ifn is None or ifn is fn:
+                rep.violation('R3', loc(impl.module, impl.node), f'{impl.name}.{name}', f'{name} not implemented',
+                              f'{impl.name} does not implement the abstract operation {name}')
+                continue
+            ap, ak, ar = sig(fn)
+            ip, ik, ir = sig(ifn)
+            if set(ap + ak) != set(ip + ik) or not ir <= set(ap + ak) or (ak and not set(ak) <= set(ik + ip)):
+                rep.violation('R3', loc(impl.module, ifn), f'{impl.name}.{name}', f'signature {ip} * {ik} vs abstract {ap} * {ak}',
+                              f'a call written against the documented interface ({ap}, keyword-only {ak}) is a TypeError on {impl.name}')
     # the shells forward through __getattr__
     for spec in (nxg.SHARED_SHELL, nxg.DISJ_SHELL):
         sh = prog.cls(spec)
@@ -250,6 +276,8 @@ MUTANTS = [
      'replace': "                                                   {'eq': [ABCPropertyGraph.NODE_ID, node_id]},\n                                                   {'eq': [ABCPropertyGraph.PROP_CLASS, label]}\n                                               ]}))\n        if len(existing_nodes) > 0:"},
     {'name': 'storage-signature-drift', 'file': 'fim/graph/networkx_property_graph_disjoint.py', 'rule': 'R3',
      'find': '        def del_graph(self, graph_id: str) -> None:', 'replace': '        def del_graph(self, graph_id: str, force: bool) -> None:'},
+    {'name': 'backend-parameter-renamed', 'file': NX, 'rule': 'R3',
+     'find': '    def unset_link_property(self, *, node_a: str, node_b: str, kind: str, prop_name: str) -> None:', 'replace': '    def unset_link_property(self, *, node_a: str, node_b: str, rel: str, prop_name: str) -> None:\n        kind = rel'},
     {'name': 'overwrite-keeps-own', 'file': NX, 'rule': 'R5',
      'find': "other_props[k] if merge_properties[k] == 'overwrite' else", 'replace': "node_props[k] if merge_properties[k] == 'overwrite' else"},
 ]
